@@ -77,6 +77,20 @@ def need(imports, frm, sym):
         imports[frm].append(sym)
 
 
+# concrete names of the chain's types T1..T3 (by salt): in the second scheme a derived type sorts BEFORE its parent,
+# so that an output ordered by name instead of by dependency differs from the declared order
+NAME_SCHEMES = [['T1', 'T2', 'T3'], ['Zeta1', 'Mid2', 'Alpha3']]
+
+
+def tname(k, salt):
+    return NAME_SCHEMES[(salt // 3) % len(NAME_SCHEMES)][k - 1]
+
+
+def abstract_name(n, salt):
+    sch = NAME_SCHEMES[(salt // 3) % len(NAME_SCHEMES)]
+    return 'T%d' % (sch.index(n) + 1) if n in sch else n
+
+
 def build(aspect, sc, salt):
     """-> {module name: module description}"""
     imports = {'SNMPv2-SMI': ['OBJECT-TYPE', 'enterprises']}
@@ -92,7 +106,7 @@ def build(aspect, sc, salt):
         prevname, prevsyn = None, base_syntax(b)
         tdecls = []
         for k, ln in enumerate(sc['chain'], 1):
-            name = 'T%d' % k
+            name = tname(k, salt)
             syn = dict(prevsyn) if prevname is None else {'base': prevname}
             if ln['refine']:
                 syn = refined(syn, b, k - 1)
@@ -119,8 +133,8 @@ def build(aspect, sc, salt):
         if sc.get('decoy'):
             other = 'OCTET STRING' if BASE_INT(b) or b in ('OBJECT IDENTIFIER', 'BITS') else 'Integer32'
             imp_base(other, imports)
-            decls.append({'k': 'type', 'name': 'T1', 'syntax': refined({'base': other}, other, 0)})
-            decls.append({'k': 'objecttype', 'name': 'decoyObject', 'access': 'read-write', 'syntax': {'base': 'T1'}, 'defval': DEFAULT_FOR[other],
+            decls.append({'k': 'type', 'name': tname(1, salt), 'syntax': refined({'base': other}, other, 0)})
+            decls.append({'k': 'objecttype', 'name': 'decoyObject', 'access': 'read-write', 'syntax': {'base': tname(1, salt)}, 'defval': DEFAULT_FOR[other],
                           'oid': {'parent': 'typesRoot', 'arcs': [[None, 2]]}})
         perm = [i for i in PERMS[(sc['order'] * 4 + salt) % len(PERMS)] if i < len(block)]
         decls += [block[i] for i in perm]
@@ -211,7 +225,7 @@ def walk_constraints(spec, cls):
     return found
 
 
-def py_observe(aspect, sc, syms):
+def py_observe(aspect, sc, syms, salt=0):
     out = {'parent': '-', 'alts': [], 'named': [], 'defden': '-'}
     obj = syms.get(MOD, {}).get('theObject')
     if obj is None:
@@ -222,6 +236,7 @@ def py_observe(aspect, sc, syms):
     out['parent'] = type(syn).__name__ if not type(syn).__name__.startswith('_') else mro[1]
     if aspect == 'chain' and out['parent'] in ('TextualConvention',):
         out['parent'] = mro[2]
+    out['parent'] = abstract_name(out['parent'], salt)
     if aspect in ('range', 'size'):
         cls = 'ValueSizeConstraint' if aspect == 'size' else 'ValueRangeConstraint'
         # the object's own alternatives are the last union added to the intersection
@@ -282,7 +297,7 @@ def replay_one(args):
         e = doc.get('theObject', {})
         syn = e.get('syntax', {})
         J = obs['json']
-        J['parent'] = syn.get('type', '-')
+        J['parent'] = abstract_name(syn.get('type', '-'), salt)
         J.update(json_default(e))
         cons = syn.get('constraints', {})
         if aspect in ('range', 'size'):
@@ -295,8 +310,8 @@ def replay_one(args):
             J['named'] = [[k, v] for k, v in (named or {}).items()]
         if aspect == 'chain':
             for k, ln in enumerate(sc['chain'], 1):
-                d = doc.get('T%d' % k, {})
-                J['links'].append({'parent': d.get('type', {}).get('type', '-') if isinstance(d.get('type'), dict) else '-', 'cls': d.get('class', '-')})
+                d = doc.get(tname(k, salt), {})
+                J['links'].append({'parent': abstract_name(d.get('type', {}).get('type', '-'), salt) if isinstance(d.get('type'), dict) else '-', 'cls': d.get('class', '-')})
         if with_py:
             pp = mibs.Pipeline(texts, backend='pysnmp')
             rp = pp.compile(*texts)
@@ -311,7 +326,7 @@ def replay_one(args):
                     obs['error'] = ' '.join(errs.values())[-300:]
                 else:
                     try:
-                        obs['py'] = py_observe(aspect, sc, syms)
+                        obs['py'] = py_observe(aspect, sc, syms, salt)
                     except Exception as exc:
                         obs['status'] = 'py-observe-error'
                         obs['error'] = '%s: %s' % (type(exc).__name__, exc)
